@@ -45,11 +45,12 @@ enum OpKind : int {
     OP_REDUMP,
     OP_DESTROY,
     OP_LOOKUP,
+    OP_WRAP,
     OP_NKINDS
 };
 const char *const OP_NAMES[OP_NKINDS] = {"Construct", "DefaultCtor", "Write",  "CopyCtor",   "MoveCtor",
                                          "CopyAssign", "MoveAssign", "ConvertCopy", "ConvertMove", "Dump",
-                                         "Load",      "LoadAssign", "Redump", "Destroy",    "Lookup"};
+                                         "Load",      "LoadAssign", "Redump", "Destroy",    "Lookup", "Wrap"};
 enum FaultKind : int { F_NONE, F_ALLOC, F_EOF, F_IOTHROW, F_TEAR, F_CUDA, F_NKINDS };
 const char *const FAULT_NAMES[F_NKINDS] = {"none", "alloc", "eof", "iothrow", "tear", "cuda"};
 
@@ -676,6 +677,42 @@ struct World {
             }
             break;
         }
+        case OP_WRAP: {
+            // field of the outer type from its outer configurations + std::move(inner.backend())
+            if (B.state != S_LIVE || a == b || op.stack < 0 || !ops_of(op.stack).has_core || !ops_of(op.stack).wrap[B.stack])
+                break;
+            const StackDesc &od = g_stacks[op.stack];
+            const StackDesc &id = g_stacks[B.stack];
+            int k = od.depth - id.depth;
+            destroy_slot(A);
+            ModelField m;
+            Rng r(op.vseed);
+            Rng rc = r.fork("cfg");
+            gen_cfgs(od, B.model.ext, rc, plan.nice != 0, (ValMode)plan.vmode, m);
+            for (int i = k; i < od.depth; ++i)
+                m.cfg[i] = B.model.cfg[i - k];
+            m.vals = B.model.vals;
+            const SlotOps &o = ops_of(op.stack);
+            void *mem = raw_alloc(o);
+            int in_stack = B.stack;
+            int rcode = guarded(op, [&] { o.wrap[in_stack](mem, m, B.obj); }, what, fired);
+            executed = true;
+            src_slot = b;
+            cnt.inc("probe.field_built_from_moved_backend_of_live_field");
+            if (rcode) {
+                std::free(mem);
+                if (!expect_no_throw(rcode, op.stack))
+                    return;
+                cnt.inc("op_failed_by_fault");
+            } else {
+                A.state = S_LIVE;
+                A.stack = op.stack;
+                A.obj = mem;
+                A.model = m;
+                ++mutating;
+            }
+            break;
+        }
         case OP_DUMP: {
             if (A.state != S_LIVE || !ops_of(A.stack).has_io)
                 break;
@@ -730,6 +767,8 @@ struct World {
                     violate(opi, "stream-bad-after-dump", A.stack, name, "ostream not good after a fault-free dump");
                     return;
                 }
+                if (RUNNING_ON_VALGRIND && !body.empty())
+                    (void)VALGRIND_CHECK_MEM_IS_DEFINED(body.data(), body.size()); // a dump of uninitialised storage is a memcheck error
                 obs.bytes(body.data(), body.size());
                 cnt.inc("dump_bytes", body.size());
                 if (plan.property == "C07") {
@@ -1248,27 +1287,27 @@ Plan gen_plan(const std::string &property, const std::string &profile, uint64_t 
     bool lookups = false;
     bool fault_run = false;
     if (profile == "ownership") {
-        double ww[] = {3, 0.5, 4, 3, 2, 4, 2, 1.5, 0.7, 1.5, 1.5, 1, 0.3, 1.5, 0};
+        double ww[] = {3, 0.5, 4, 3, 2, 4, 2, 1.5, 0.7, 1.5, 1.5, 1, 0.3, 1.5, 0, 1.5};
         std::copy(ww, ww + OP_NKINDS, w);
         fault_run = rk.chance(0.5);
         f_alloc = fault_run;
         f_stream = fault_run && rk.chance(0.5);
         f_cuda = fault_run;
     } else if (profile == "conversion") {
-        double ww[] = {3, 0, 2, 0.7, 0.3, 0.5, 0.2, 6, 2, 0, 0, 0, 0, 0.7, 0};
+        double ww[] = {3, 0, 2, 0.7, 0.3, 0.5, 0.2, 6, 2, 0, 0, 0, 0, 0.7, 0, 0.5};
         std::copy(ww, ww + OP_NKINDS, w);
         fault_run = rk.chance(0.4);
         f_alloc = fault_run;
         f_cuda = fault_run;
     } else if (profile == "roundtrip") {
-        double ww[] = {3, 0, 2, 0.3, 0, 0.3, 0, 0.5, 0, 4, 4, 1, 3, 0.5, 0};
+        double ww[] = {3, 0, 2, 0.3, 0, 0.3, 0, 0.5, 0, 4, 4, 1, 3, 0.5, 0, 0.7};
         std::copy(ww, ww + OP_NKINDS, w);
     } else if (profile == "portability") {
-        double ww[] = {3, 0, 1.5, 0, 0, 0, 0, 0.3, 0, 4, 5, 0.5, 1.5, 0.5, 0};
+        double ww[] = {3, 0, 1.5, 0, 0, 0, 0, 0.3, 0, 4, 5, 0.5, 1.5, 0.5, 0, 0.3};
         std::copy(ww, ww + OP_NKINDS, w);
         p.vmode = VAL_FINITE;
     } else { // ub
-        double ww[] = {3, 0.3, 3, 1.5, 1, 1.5, 1, 1.5, 0.5, 1.5, 1.5, 0.7, 0.7, 1, 7};
+        double ww[] = {3, 0.3, 3, 1.5, 1, 1.5, 1, 1.5, 0.5, 1.5, 1.5, 0.7, 0.7, 1, 7, 1.0};
         std::copy(ww, ww + OP_NKINDS, w);
         lookups = true;
         p.nice = 1;
@@ -1493,6 +1532,25 @@ Plan gen_plan(const std::string &property, const std::string &profile, uint64_t 
             gs[dst].ext = gs[src].ext;
             if (kind == OP_CONVERT_MOVE)
                 gs[src].state = S_INDET;
+            break;
+        }
+        case OP_WRAP: {
+            std::vector<int> tg;
+            for (int k = 0; k < g_nwrap; ++k)
+                if (g_wrap_pairs[k][1] == gs[src].stack && !dis.core(g_stacks[g_wrap_pairs[k][0]]) &&
+                    !dis.s.count(std::string(g_stacks[g_wrap_pairs[k][0]].id) + ":wrap:" + g_stacks[gs[src].stack].id) &&
+                    (thorough || g_stacks[g_wrap_pairs[k][0]].tier == 0))
+                    tg.push_back(g_wrap_pairs[k][0]);
+            if (tg.empty())
+                continue;
+            if (dst == src)
+                dst = (dst + 1) % p.nslots;
+            op.a = dst;
+            op.b = src;
+            op.stack = tg[rg.below(tg.size())];
+            gs[dst].state = S_LIVE;
+            gs[dst].stack = op.stack;
+            gs[dst].ext = gs[src].ext;
             break;
         }
         case OP_DUMP:
